@@ -278,6 +278,22 @@ def run(chk, tier, seed):
             e = classify(o, argv, "cli", dict(opts=c["opts"], cmd=c["cmd"], predicted=c["exit"]))
             return e
         events += common.pmap(do_c, csel)
+        # several image files in one run (state kept from one drive to the next): every pair from {disc with files, blank disc,
+        # Watford disc with an empty first catalogue, Opus disc} x commands that take several drives
+        blank = discs.build("DFS", [], scratch, "blank", nsectors=800, salt=4, title=b"BLANK")
+        wat = discs.build("WDFS", [mkdisc.entry("W", length=300, start=9)], scratch, "wat0", nsectors=400, salt=4, split=0, title=b"WAT")
+        opu = discs.build("OPUS", [mkdisc.entry("A", length=300, start=9)], scratch, "opu", salt=5, opus_letter="B")
+        pool = [okimg.path, blank.path, wat.path, opu.path]
+        mjobs = []
+        for a in pool:
+            for b in pool:
+                for cmd in (["space", "0", "1"], ["space", "1", "0"], ["space", "1"], ["free", "1"], ["show-titles", "0", "1"], ["show-titles", "1", "0"],
+                            ["sector-map", "1"], ["cat", "1"], ["info", ":1.#.*"], ["extract-unused", "--drive", "1", dest] if False else ["--drive", "1", "extract-unused", dest]):
+                    pre = [x for x in cmd if x.startswith("--") or x == "1" and cmd[0] == "--drive"][:2] if cmd[0] == "--drive" else []
+                    argv = [dfs, "--drive-first", "--file", a, "--file", b] + cmd
+                    mjobs.append(argv)
+        for o, argv in zip(common.pmap(lambda a_: common.run(a_, timeout=20), mjobs), mjobs):
+            events.append(classify(o, argv, "multi-drive", dict(files=[os.path.basename(x) for x in argv[3:6:2]])))
         # havoc
         corpus = [okimg.path]
         d2 = discs.build("WDFS", [mkdisc.entry("A", length=300, start=9), mkdisc.entry("B", length=10, start=5)], scratch, "w", nsectors=400, salt=4, split=1)
